@@ -99,6 +99,11 @@ CLAIMED.update({
    technique="runtime monitor of parser.ParseSrc over generated, mutated and hand-built hostile inputs: panic capture, CPU/allocation budget per input (termination), error type and position range, determinism (sequential and concurrent under -race), and the compositional law on pairs of valid programs checked node by node with shifted positions",
    text="22 scanner-bookkeeping families (unterminated strings/comments at every offset, CR/LF mixes, invalid UTF-8, NUL, 20000-deep nesting, 64 KB tokens, operators split by EOF), every corpus script with all prefixes/suffixes, the complete square of ~120 valid edge texts plus edge x corpus pairs, token/byte soup, a grammar-directed generator and 11 mutators, random valid pairs, and 8-goroutine concurrent parses in the race build.",
    note="Trusted: astx reflection dump for tree identity; 'terminates' is restated as 20 CPU-seconds / 1 GiB allocated per input (normal: < 5 ms), decided on CPU time. Lines are counted as count(newline)+1; columns in bytes (the more permissive unit)."),
+ "C16": dict(
+   cat="exploration", ref="DESIGN.md section 3, C16",
+   technique="runtime delivery monitor over generated pipeline programs: every message carries a unique (producer, sequence) id; the consumer's collected sequence is checked for exactly-once FIFO delivery and element conversion; termination is decided by a goroutine-state sampler; half of the runs execute under the Go race detector",
+   text="An exhaustive semantics table (9 scenarios x 7 element types x 3 capacities: receive on closed-and-drained, two-value form, range until close, send on closed, double close, capacity) plus PRNG pipelines of 1-4 stages over buffered/unbuffered typed and interface channels with every receive form, named/anonymous/variadic go launches with arguments reassigned right after the go statement, fan-in and fan-out, n in {0,1,2,50,1000}, host jitter at PRNG points, GOMAXPROCS 1/2/4/16 and repetitions; arrival interleavings at the fan-in consumer are counted as the measure of schedule diversity.",
+   note="Trusted: the sampler's classification (every anko goroutine parked in a channel operation in two samples = deadlock/lost message; anything else inconclusive). Not judged: nil messages, channels as messages, inexact conversions, errors inside go bodies (C01), unsynchronised shared containers."),
  "C17": dict(
    cat="exploration", ref="DESIGN.md section 3, C17",
    technique="runtime structural monitor: the node set and parent relation computed by reflection (independent of astutil) is compared with what astutil.Walk presents; callback failure injected at every position",
